@@ -127,6 +127,8 @@ def make_pool(rng):
         step = dict(kind='default') if u < 0.5 else dict(kind='scalar', value=float(10.0 ** rng.uniform(-4, -1.5))) if u < 0.75 \
             else dict(kind=str(rng.choice(['min', 'max'])), opts=_step_opts(rng))
         method = str(rng.choice(HESSIAN_METHODS if cls == 'Hessian' else ALL_METHODS))
+        if cls == 'Hessian' and rng.random() < 0.6:
+            method = str(rng.choice(['forward', 'backward']))       # (the one-sided Hessian kernels are their own code)
         pts = [[float(v) for v in np.round(rng.uniform(-1.5, 1.5, size=dim), 3)] for _ in range(2)]
         pool.append(dict(cls=cls, fun=str(rng.choice(funs)), method=method, n=None, order=int(rng.choice([2, 4])),
                          step=step, points=pts, alts=[]))
